@@ -5,7 +5,7 @@ from bisect import bisect
 from ast import Name as AstName, Attribute, Call, FunctionDef, ClassDef, Lambda
 
 from .util import (Location, np, insert_loc, cached_property,
-                   get_indexes_for_target, context_property)
+                   get_indexes_for_target, context_property, marked)
 from .compat import PY2, itervalues, builtins, iteritems, iterkeys
 from .name import (ArgumentName, MultiName, UndefinedName, ImportedName,
                    RuntimeName, AdditionalNameWrapper, AssignedName,
@@ -297,6 +297,9 @@ class SourceScope(Scope):
         for _scope, attr, value in self._attr_assigns:
             # logging.getLogger('supp.attr').error('Get attr for %s %s',
             #                                      scope, dump(attr, annotate_fields=False))
+            if marked(attr.attr):
+                # the attribute being typed at the cursor is not a definition yet
+                continue
             if type(attr.value) is AstName:
                 attr_val = ctx.evaluate(attr.value)
                 if attr_val:
